@@ -8,8 +8,8 @@ from judges import judge_store_trace
 import checklib
 
 BUDGET = {  # histories per family
-    "quick": {"pos": 2500, "buf": 2500, "bufedge": 2000, "prq": 2000, "fleet": 2500, "slot": 2500},
-    "thorough": {"pos": 60000, "buf": 60000, "bufedge": 40000, "prq": 40000, "fleet": 60000, "slot": 60000},
+    "quick": {"pos": 2500, "buf": 2500, "bufedge": 2000, "prq": 2000, "fleet": 2500, "slot": 2500, "cbelt": 2500},
+    "thorough": {"pos": 60000, "buf": 60000, "bufedge": 40000, "prq": 40000, "fleet": 60000, "slot": 60000, "cbelt": 60000},
 }
 
 def _gen_chunk(args):
